@@ -481,6 +481,7 @@ func (e *FnEnc) instr(in ssa.Instruction) {
 		e.nextInstr(i)
 	case *ssa.Call:
 		e.call(i, i.Common(), i)
+		e.applyCallUpdates(i, i.Common())
 	case *ssa.MakeClosure:
 		e.makeClosure(i)
 	case *ssa.Defer:
